@@ -75,6 +75,34 @@ def learn (s : FSt) (its : List (Nat × Bytes × Option Bytes)) : FSt :=
 
 def hasSub (s sub : String) : Bool := (s.splitOn sub).length > 1
 
+/-- sub-operations of a `kseq` line: `p<i>` put item i, `b<i><j>…` PutBatch of the items, `d<i>` delete item i's address -/
+def fsSeqOps (its : List (Nat × Bytes × Option Bytes)) (spec : String) : Option (List Api) :=
+  if spec == "-" || spec == "" then some [] else
+  (spec.splitOn ",").mapM fun tok =>
+    match tok.toList with
+    | kind :: digits =>
+      match digits.mapM (fun c => if c.isDigit then its[c.toNat - '0'.toNat]? else none) with
+      | none => none
+      | some sel =>
+        match kind, sel with
+        | 'p', [it] => some (Api.put it.1 it.2.1)
+        | 'd', [it] => some (Api.del it.1)
+        | 'b', _ => if sel.isEmpty then none else some (Api.batch (sel.map fun it => (it.1, it.2.1)))
+        | _, _ => none
+    | [] => none
+
+def fsDedupAdj : List String → List String
+  | a :: b :: rest => if a == b then fsDedupAdj (b :: rest) else a :: fsDedupAdj (b :: rest)
+  | l => l
+
+def fsSortedSet (l : List String) : List String := fsDedupAdj (l.mergeSort (fun a b => !(b < a)))
+
+def fsPhaseRes : GPhase → String
+  | .done true => "ok"
+  | .done false => "err"
+  | _ => "pending"
+
+
 /-- finish an op: crash ⇒ recover + CleanUpTmp; panic / blocked ⇒ dead -/
 def fsFinish (s : FSt) (k : K) (res : String) (showN : Bool) (c : Option Nat := none) : FSt × String :=
   -- the process also counts as stopped when it exits right after the last system call of the op
@@ -140,6 +168,41 @@ def fstreeStep (s : FSt) (o : OpLine) : FSt × String :=
     match o.nat? "a" with
     | some a => let r := delete orc s.k a; fsFinish s r.1 (outName r.2) true (o.nat? "c")
     | none => (s, "=> bad-op")
+  | "kseq" =>
+    -- a short sequence of calls run by one process on a fresh tree, killed at every system call in turn
+    match fsItems o, o.get? "setup", o.get? "ops" with
+    | some its, some pre, some spec =>
+      match fsSeqOps its pre, fsSeqOps its spec with
+      | some preOps, some seqOps =>
+        let s := learn s its
+        let k0 := runApi s.cfg noFault {} preOps
+        let k0 := { k0 with n := 0 }
+        let imgs := crashImages s.cfg k0 seqOps
+        let states := fsSortedSet (imgs.map fun k => fsDump { s with k := k })
+        (s, s!"=> ok states={states.length} {String.intercalate ";" states} | {fsDump s}")
+      | _, _ => (s, "=> bad-op")
+    | _, _, _ => (s, "=> bad-op")
+  | "gsched" =>
+    -- concurrent puts on the portable writer, one system call of one caller per schedule entry
+    match fsItems o, o.nats? "sched" with
+    | some its, some sched =>
+      if !s.cfg.generic || its.any (fun it => it.2.1.isEmpty) then (s, "=> bad-op") else
+      let s := learn s its
+      let ws : List GW := its.map fun it => { a := it.1, d := it.2.1 }
+      match o.nat? "c" with
+      | some c =>
+        let r := gsched noFault s.k ws (sched.take c)
+        let s' := { s with k := cleanUpTmp (recover r.1) }
+        (s', s!"=> crashed | {fsDump s'}")
+      | none =>
+        let (st, snaps) := sched.foldl (fun (acc : (K × List GW) × List String) n =>
+          let st := gschedStep noFault acc.1 n
+          (st, acc.2 ++ [fsDump { s with k := cleanUpTmp (recover st.1) }])) ((s.k, ws), [])
+        let fin := gsched noFault st.1 st.2 (gfinishSched ws.length)
+        let s' := { s with k := fin.1 }
+        let res := String.intercalate "," (fin.2.map fun w => fsPhaseRes w.ph)
+        (s', s!"=> {res} snaps={String.intercalate ";" (fsDedupAdj snaps)} | {fsDump s'}")
+    | _, _ => (s, "=> bad-op")
   | "get" | "getb" =>
     match o.nat? "a" with
     | some a => (s, s!"=> {fstreeShowRes (get dec s.k a)} | {fsDump s}")
